@@ -6,7 +6,7 @@ import io
 import traceback
 
 from . import sut, steps
-from .simfs import SimFile, SimFS
+from .simfs import SimFile, SimPipe, SimFS
 
 
 class Outcome:
@@ -82,14 +82,14 @@ def _safe_str(ex):
         return "<unprintable>"
 
 
-def run_reader(image, reader, blocked, enc=None, cfg=None, limit=None, maxlen=None, style="for") -> Outcome:
+def run_reader(image, reader, blocked, enc=None, cfg=None, limit=None, maxlen=None, style="for", pipe=False) -> Outcome:
     """reader: 'VbsReader' | 'IpmReader'.  style: how the application drives the iterator -
     'for' (one for loop), 'next' (next() calls only), 'resume:j' (j records taken with next(), then a for
     loop over the same reader), 'twice:j' (a for loop left after j records, then a second for loop)"""
     m = sut.load()
     o = Outcome()
     bud = steps.Budget(limit or steps.budget_for(len(image)))
-    f = SimFile(image, name="disk")
+    f = SimPipe(image, name="pipe") if pipe else SimFile(image, name="disk")
     try:
         with sut.knob(maxlen):
             with bud:
